@@ -269,6 +269,56 @@ def sample_args(entry: ClassEntry, rng, n: int):
     return out
 
 
+def field_default(f):
+    """(has_default, value) of a dataclass field."""
+    if f.default is not dataclasses.MISSING:
+        return True, f.default
+    if f.default_factory is not dataclasses.MISSING:
+        return True, f.default_factory()
+    return False, None
+
+
+def calling_conventions(entry: ClassEntry, rng, n_random: int = 2) -> list[dict]:
+    """Ways to write ONE call of the generated `__new__` that all give every field the same value:
+    `n_pos` leading positional values, then the listed field names as keywords IN THAT WRITTEN ORDER;
+    fields in `skipped` (they have a default) are left out, keywords for later fields follow them.
+    -> dicts {label, n_pos, kw (names in call order), skipped (names)}."""
+    names = [f.name for f in entry.fields]
+    n = len(names)
+    if n == 0:
+        return []
+    out = [{"label": "all keywords, declaration order", "n_pos": 0, "kw": list(names), "skipped": []}]
+    if n > 1:
+        out.append({"label": "all keywords, reversed", "n_pos": 0, "kw": list(reversed(names)), "skipped": []})
+        half = n // 2
+        out.append({"label": "all keywords, rotated", "n_pos": 0, "kw": names[half:] + names[:half], "skipped": []})
+        for k in range(n_random):
+            n_pos = rng.randrange(0, n - 1) if k % 2 else 0
+            kw = names[n_pos:]
+            rng.shuffle(kw)
+            out.append({"label": "random positional prefix + shuffled keywords", "n_pos": n_pos, "kw": kw, "skipped": []})
+    defaulted = [f.name for f in entry.fields if field_default(f)[0]]
+    for name in defaulted:
+        j = names.index(name)
+        later = names[j + 1:]
+        if not later:
+            continue
+        n_pos = rng.randrange(0, j + 1)
+        kw = names[n_pos:j] + later
+        for variant in ("declaration order", "shuffled"):
+            kw2 = list(kw)
+            if variant == "shuffled":
+                rng.shuffle(kw2)
+            out.append({"label": f"defaulted field {name!r} skipped, later fields by keyword ({variant})",
+                        "n_pos": n_pos, "kw": kw2, "skipped": [name]})
+    return out
+
+
+def call_convention(entry: ClassEntry, vals: list, conv: dict):
+    by_name = {f.name: v for f, v in zip(entry.fields, vals)}
+    return entry.cls(*vals[: conv["n_pos"]], **{k: by_name[k] for k in conv["kw"]})
+
+
 class _Timeout(BaseException):
     """Not an Exception: must not be swallowed by `except Exception` inside SymPy or the harness."""
 
@@ -983,6 +1033,25 @@ def correspondence(chk: common.Check, rng, n_per_class: int, entries, helpers, c
                     real=_try(lambda k=k: entry.cls(*vals[:k])), n_given=k)
             add(f"(construct {m1.hx(entry.key)} {' '.join([*toks, extra])})", op="construct", key=key, expr=r,
                 real=_try(lambda: entry.cls(*vals, 7)), n_given=len(vals) + 1)
+            # the generated __new__ through the other CALLING CONVENTIONS: the model's constructor maps declared
+            # fields to values (positional list in declaration order); the real class is called with keywords in
+            # another written order / mixed / with a defaulted field skipped and must build that same instance
+            for conv in calling_conventions(entry, rng, 2):
+                toks_c = list(toks)
+                try:
+                    for name in conv["skipped"]:
+                        j = [f.name for f in entry.fields].index(name)
+                        f = entry.fields[j]
+                        dv = field_default(f)[1]
+                        toks_c[j] = (f"(e {m1.show(m1.canon(__import__('sympy').sympify(dv), ctx))})" if f.metadata.get("sympify")
+                                     else f"(a {m1.show_attr(m1.attr_of(dv, ctx))})")
+                except Exception:  # noqa: BLE001  (a default the converter cannot write down)
+                    stats["convention_default_not_representable"] = stats.get("convention_default_not_representable", 0) + 1
+                    continue
+                stats["calling_conventions"] = stats.get("calling_conventions", 0) + 1
+                add(f"(construct {m1.hx(entry.key)} {' '.join(toks_c)})", op="construct", key=key, expr=r,
+                    real=_try(lambda conv=conv: call_convention(entry, vals, conv)), n_given=len(vals),
+                    convention={"what": conv["label"], "positional": conv["n_pos"], "keywords_as_written": conv["kw"], "skipped": conv["skipped"]})
             attrs = tuple(m1.attr_of(getattr(r, f.name), ctx) for f in entry.attr_fields)
             if any(a == attrs for a, _ in entry.templates):
                 try:
@@ -1018,6 +1087,9 @@ def correspondence(chk: common.Check, rng, n_per_class: int, entries, helpers, c
             rec["substitution_key_kind"] = kw["term_key"]
         if "n_given" in kw:
             rec["positional_values_given"] = kw["n_given"]
+        if "convention" in kw:
+            rec["calling_convention"] = kw["convention"]
+            rec["positional_values_given"] = kw["convention"]["positional"]
         line = line.strip()
         if op == "wfterm":
             if line != "true":
